@@ -36,8 +36,18 @@ static void fillsym(SharedVec<int>& x) {
 }
 // one arbitrary mutation through the library's discipline (MakeUnique first)
 static void mutate(SharedVec<int>& x, SharedVec<int>& other) {
-  unsigned op = vf_nondet_u32() % 8;
+  unsigned op = vf_nondet_u32() % 9;
   switch (op) {
+    case 8: {  // re-seat the handle on storage moved in from an UNSHARED Vec (Vec<T,true>::operator=(Vec<T,false>&&));
+               // afterwards the remaining sharers must still detach from each other correctly
+      Vec<int> u(other.view());
+      x = std::move(u);
+      x.MakeUnique();
+      if (x.size() > 0) x[0] = vf_int();
+      other.MakeUnique();
+      if (other.size() > 0) other[0] = other[0];
+      break;
+    }
     case 0: x.MakeUnique(); x.push_back(vf_int()); break;
     case 1: x.MakeUnique(); x.resize(vf_range(0, VF_N + 1), vf_int()); break;
     case 2: x.MakeUnique(); x.clear(vf_bool()); break;
